@@ -11,6 +11,13 @@ TB = ("Lean 4.33 kernel; axioms propext/Classical.choice/Quot.sound only (audite
       "Types instantiation fixed to ((u64,u64), Vec<u8>)")
 
 CLAIMS = {
+ "C01": dict(text="Refinement theorem c01_refines: for every configuration (any chunk limits) and every history of legal accepted "
+             "writes interleaved with arbitrary flushes and worker steps (any outcome) from a fresh store, with cache limits "
+             "covering the history, the store's state equals the reference log's and read/iter return exactly its entries; "
+             "every call returns ok (c01_calls_ok); chunk limits are invisible (c01_chunking_invisible). Correspondence and "
+             "reference-log oracle on ret/st/read/iter over generated legal histories with all chunk-limit classes.",
+             technique="Lean 4 refinement proof to a reference log (invariant + induction over histories) + correspondence/oracle",
+             ref="7 C01"),
  "C12": dict(text="Codec round trip, canonicity, prefix=>eof and totality proved for all records and all byte strings "
              "(Props/C12.lean); the model codec is compared with the public codeq Encode/Decode of WALRecord on "
              "generated records, every-prefix, one-byte mutations and arbitrary bytes.",
